@@ -4,7 +4,19 @@
 # Prints one line per mutant: caught / MISSED / stale (patch no longer applies).  exit 2 if any is missed.
 cd "$(dirname "$0")/.." || exit 2
 rc=0
+# one private Go build cache for all helper-inlined views of this run (see checker/main.go viewCacheDir)
+BCHVERIF_VIEWCACHE=$(mktemp -d /tmp/bchverif-gocache-XXXXXX); export BCHVERIF_VIEWCACHE
+trap 'rm -rf "$BCHVERIF_VIEWCACHE"' EXIT
+# every patched tree leaves compiled packages in the Go build cache: keep it from filling the disk
+trim_cache() {
+	c=$(go env GOCACHE 2>/dev/null); [ -d "$c" ] || return 0
+	kb=$(du -sk "$c" 2>/dev/null | cut -f1)
+	[ "${kb:-0}" -gt 30000000 ] && go clean -cache 2>/dev/null
+	return 0
+}
+n=0
 for d in seeded/*/; do
+	n=$((n+1)); [ $((n % 25)) -eq 0 ] && trim_cache
 	id=$(basename "$d")
 	prop=${id%%-*}
 	if ! git -C /repo apply --check "$(pwd)/$d/patch.diff" 2>/dev/null; then
